@@ -30,6 +30,7 @@ func init() {
 		ID:           "C01",
 		Run:          Run,
 		MaxSteps:     400000,
+		YieldFiles:   []string{"ss2022/stream.go", "ss2022/tcp.go"},
 		QuickRuns:    2400,
 		ThoroughSecs: 600,
 		Rule: "one run = one generated configuration (cipher, single/multi-user, prefixes, segmented-header allowance, target kind, " +
@@ -105,6 +106,7 @@ func Run(s *simrt.Sim) {
 	w.TCPLatency = util.Pick(s, []time.Duration{0, 0, time.Millisecond})
 	w.TCPJitter = util.Pick(s, []time.Duration{0, 0, time.Millisecond})
 	s.PSwitch = util.Pick(s, []int{8, 64, 160, 255})
+	s.YieldP = util.Pick(s, []int{0, 0, 0, 32, 128}) // statement-level pre-emption inside the stream code
 
 	keyLen := util.Pick(s, []int{16, 32})
 	multi := s.GenChance(128)
